@@ -1,10 +1,45 @@
 /-
-  C18 — fixpoint simplification: idempotence of the result (unconditional), determinism
-  (the model functions are pure; for the implementation this is the content of the tie).
-  Termination: see `Proofs/Termination` when present; otherwise reported as not proved.
+  C18 — fixpoint simplification: termination for every formula and every portfolio
+  (`fixpoint_terminates`, by a lexicographic measure that every rewrite decreases whenever it
+  changes the formula - `Proofs/Termination`, `Proofs/TerminationClassic`), independence of the
+  result from the pass bound once the loop has ended by itself, idempotence of the result,
+  determinism (the model functions are pure; for the implementation this is the content of the
+  tie).
 -/
 import AnthemModel.Model.Simplify
+import AnthemModel.Proofs.TerminationClassic
 namespace Anthem.C18
+
+/-- **Termination.** For every portfolio and every formula the fixpoint loop ends by itself after
+    finitely many passes: some pass leaves the formula unchanged. (The Rust loop has no bound; the
+    model's bound is only the fuel of a total function, and this theorem says that some fuel is
+    always enough.) -/
+theorem fixpoint_terminates (p : Portfolio) (F : Formula) :
+    ∃ n, (simplifyWith p .fixpoint n F).2 = true := by
+  simp only [simplifyWith]
+  exact applyFixpoint_terminates (compose_le4 (portfolio_le4 p)) F
+
+/-- every pass that changes the formula strictly decreases the measure `(pw, ew, gw, bw)` -/
+theorem pass_decreases (p : Portfolio) (F : Formula) :
+    applyPost (compose p.rewrites) F = F ∨ Lt4 (applyPost (compose p.rewrites) F) F :=
+  applyPost_le4 (compose_le4 (portfolio_le4 p)) F
+
+/-- **The result does not depend on the pass bound**: once the loop has ended by itself with `n`
+    passes allowed, every larger bound gives the same result; so "the" result of the unbounded
+    Rust loop is well defined and is what the model computes with any sufficient bound. -/
+theorem fixpoint_bound_irrelevant (p : Portfolio) (F : Formula) (n k : Nat) (hk : n ≤ k)
+    (h : (simplifyWith p .fixpoint n F).2 = true) :
+    simplifyWith p .fixpoint k F = simplifyWith p .fixpoint n F := by
+  simp only [simplifyWith] at h ⊢
+  exact applyFixpointFuel_stable _ n F h k hk
+
+/-- the result exists and is unique: there is a formula `G` that every sufficient bound returns -/
+theorem fixpoint_result_exists_unique (p : Portfolio) (F : Formula) :
+    ∃ G n, ∀ k, n ≤ k → simplifyWith p .fixpoint k F = (G, true) := by
+  obtain ⟨n, hn⟩ := fixpoint_terminates p F
+  refine ⟨(simplifyWith p .fixpoint n F).1, n, fun k hk => ?_⟩
+  rw [fixpoint_bound_irrelevant p F n k hk hn]
+  exact Prod.ext rfl hn
 
 /-- Whenever the (bounded) fixpoint loop ends by itself with result `G`, one more pass leaves
     `G` unchanged. -/
